@@ -181,7 +181,7 @@ pub async fn run_benign(seed: u64, sched: Rc<Sched>, keep_log: bool) -> (CaseRes
     let (wire_ab, wire_ba) = (pa.tx.clone(), pb.tx.clone());
     // Scripts.
     let tiny = [cfg_ab.max_write, cfg_ab.max_read, cfg_ab.capacity, cfg_ba.max_write, cfg_ba.max_read, cfg_ba.capacity].iter().any(|x| *x < 64);
-    let script = |rng: &mut rand_chacha::ChaCha8Rng| -> Vec<(u8, usize)> {
+    let script = |rng: &mut crate::kit::SimRng| -> Vec<(u8, usize)> {
         let big = !tiny && rng.gen_range(0..100) < 15;
         (0..rng.gen_range(1..14))
             .map(|_| match rng.gen_range(0..100) {
@@ -223,7 +223,7 @@ pub async fn run_benign(seed: u64, sched: Rc<Sched>, keep_log: bool) -> (CaseRes
         hist.probe("backlog_of_small_frames");
         hist.note(format!("backlog mode: {} messages of {k} bytes before the reader starts", total / k));
     }
-    let bufs = |rng: &mut rand_chacha::ChaCha8Rng| -> Vec<usize> {
+    let bufs = |rng: &mut crate::kit::SimRng| -> Vec<usize> {
         (0..4).map(|_| [1usize, 2, 17, 1000, 65520, 70_000, 300_000][rng.gen_range(0..7)]).collect()
     };
     let (bufs_a, bufs_b) = (bufs(&mut rng), bufs(&mut rng));
